@@ -480,6 +480,8 @@ MUTANTS = [
     ('incoming-dropped-when-short', 'expect', "                idx = self.new_data(incoming)\n", "                if len(incoming) > 1:\n                    idx = self.new_data(incoming)\n", 'D5'),
     ('async-done-drops-buffer', '_async_w_await', "            spawn._before.write(s)\n            spawn._buffer.write(s)\n", "            spawn._before.write(s)\n", 'D1'),
     ('async-done-drops-all', '_async_w_await', "            spawn._before.write(s)\n            spawn._buffer.write(s)\n            return", "            return", 'D4'),
+    ('setter-aliases-stores', 'spawnbase', "        self._buffer = self.buffer_type()\n        self._buffer.write(value)\n        self._before = self.buffer_type()\n        self._before.write(value)\n", "        self._buffer = self._before = self.buffer_type()\n        self._buffer.write(value)\n", 'D1'),
+    ('eof-aliases-stores', 'expect', "        spawn._buffer = spawn.buffer_type()\n        spawn._before = spawn.buffer_type()\n        spawn.after = EOF", "        spawn._buffer = spawn.buffer_type()\n        spawn._before = spawn._buffer\n        spawn.after = EOF", 'D1'),
     ('readline-drops-crlf', 'spawnbase', "            return self.before + self.crlf", "            return self.before", 'D10'),
     ('read-returns-before', 'spawnbase', "            return self.after\n", "            return self.before\n", 'D10'),
     ('window-not-suffix', 'expect', "                window = data[-self.searchwindowsize:]\n", "                window = data[:self.searchwindowsize]\n", 'D1'),
